@@ -12,59 +12,59 @@ CHECKS = {
    'All ordered lists of <= 2 (quick) / <= 3 (thorough) rules of a 61-rule alphabet (one rule per shortcut of the token index, twins that differ in one attribute a dedup key could miss, hosts lines) are built into real engines and queried under every tag subset with a request universe in which every rule token occurs as whole token, proper suffix, proper prefix, first and last; bucket-forcing lists store each rule under each of its tokens in turn; every cell of the shared rule cube (about 55 pattern shapes x 25 option sets x exception) runs alone and next to 7 partner rules; every (blocking, exception, modifier) triple of the alphabet; n same-bucket rules for every n up to 120 / 300; a frozen corpus of 3 613 real rules is loaded as one list against URLs derived from every rule; the request universe includes non-ASCII paths and URLs of 150 / 400 tokens; every verdict field is compared with rule-by-rule evaluation; lists of <= 2 rules, the shared-domain-bucket lists, an eighth (thorough: half) of the cube and every fourth bucket size are also handed rule by rule to an empty blocker (Blocker::add_filter), with the same comparison. Exhaustive within the bound.',
    'Per-rule match is taken from the real NetworkFilter::matches (its correctness is C02/C03); combiner, redirect, removeparam and CSP references are independent. seahash collision freedom checked for the alphabet.', 'DESIGN §4 C01'),
  'C02': ('BX', 'model_checking', T_BX + 'compared with an independent reference pattern matcher',
-   'Every pattern body up to length 6 (quick) / 7 (thorough) over {a,b,.,/,*,^} in eight anchor modes (none, |, trailing |, both, ||, || with trailing |, and two scheme-prefixed left anchors) is parsed by the real parser and matched by the real matcher against every URL of a universe built to make the anchor text collide (repeated, prefix, suffix, userinfo); each verdict is compared with a 100-line reference written from the property text; weakening relations and a curated full-regex universe are added.',
+   'Every pattern body up to length 6 (quick) / 7 (thorough) over {a,b,.,/,*,^} in eight anchor modes (none, |, trailing |, both, ||, || with trailing |, and two scheme-prefixed left anchors) is parsed by the real parser and matched by the real matcher against every URL of a universe built to make the anchor text collide (repeated, prefix, suffix, userinfo); each verdict is compared with a 100-line reference written from the property text; URLs with an explicit port (the text behind the hostname is not the path); weakening relations and a curated full-regex universe are added.',
    'Reference matcher trusted (calibrated: agrees with the repaired matcher on the whole universe). regex crate trusted for full-regex rules. Spellings the property leaves open are executed but not compared.', 'DESIGN §4 C02'),
  'C03': ('BX', 'model_checking', T_BX + 'compared with an independent option predicate over an option AST',
-   'The whole type x party x scheme cube (every purely positive / purely negated type list, document, 7 party spellings, exception, important, scheme-pinned forms), the domain-list x initiator cube and long domain lists (cube E: union pre-filters) are enumerated against all request type strings, schemes and initiators, at the matcher and on single-rule engines.',
+   'The whole type x party x scheme cube (every purely positive / purely negated type list, document, 7 party spellings, exception, important, scheme-pinned forms), the domain-list x initiator cube (also with the initiator option written twice, once all-positive and once all-negated) and long domain lists (cube E: union pre-filters) are enumerated against all request type strings, schemes and initiators, at the matcher and on single-rule engines.',
    'Mixed positive+negated type lists, a party option with an absent initiator, |ws:// vs wss:// are Unspecified; a positive domain= list with an absent initiator is not satisfied (D5).', 'DESIGN §4 C03'),
  'C04': ('BX', 'model_checking', T_BX + 'precedence reference + monotonicity relation + alias-normalising badfilter oracle',
-   'Every base list x extra rule x insertion position (two real engines each) is checked for blocked==spec and both monotonicity implications; every ordered pair of 188 rule spellings, of a pattern cube, an option cube and of 51 long-field spellings (hostnames and paths of 20-40 bytes that differ in one early or inner byte) is checked for badfilter cancellation against an oracle that normalises aliases and option order.',
+   'Every base list x extra rule x insertion position (two real engines each, plus a blocker that receives the rules one by one when the extra rule comes last) is checked for blocked==spec - also through the two restricted forms of the check - and both monotonicity implications; every ordered pair of 188 rule spellings, of a pattern cube, an option cube and of 63 long-field and non-ASCII spellings (hostnames and paths of 20-40 bytes that differ in one early or inner byte, Cyrillic / accented pattern texts) is checked for badfilter cancellation against an oracle that normalises aliases and option order.',
    'Tag differences between a rule and its badfilter twin, and semantically-equal-but-textually-different type lists, are outside the domain.', 'DESIGN §4 C04'),
  'C05': ('BX', 'model_checking', T_BX + 'differential between five configurations of the real code (optimised at build, unoptimised, optimize() twice on the live blocker, optimize() after every tag switch, optimised build + add_filter + optimize())',
-   'All ordered lists <= 2 / unordered lists of 3 (quick; +1 thorough) over a 63-rule alphabet whose rules share buckets (including the wildcard bucket of token-less rules, empty patterns, an uncompilable regex) and differ in one fusion-relevant attribute or one mask bit; all pairs (thorough: triples) of rule-cube cells with equal options and all cross-option pairs of same-bucket patterns; n fusable same-bucket rules for every n up to 130 / 400 plus sizes around powers of two up to 3 000 (plain and RegexSet families); five real blockers per list, under every tag subset.',
+   'All ordered lists <= 2 / unordered lists of 3 (quick; +1 thorough) over a 75-rule alphabet whose rules share buckets (including the wildcard bucket of token-less rules, empty patterns, an uncompilable regex) and differ in one fusion-relevant attribute or one mask bit; all pairs (thorough: triples) of rule-cube cells with equal options and all cross-option pairs of same-bucket patterns; n fusable same-bucket rules for every n up to 130 / 400 plus sizes around powers of two up to 3 000 (plain and RegexSet families); five real blockers per list, under every tag subset.',
    'The unoptimised engine is the reference (its own correctness is C01).', 'DESIGN §4 C05'),
  'C06': ('HX', 'model_checking', 'exhaustive enumeration of operation histories up to a depth on fresh real subjects under a deterministic LIFO allocator, step-by-step comparison with a freshly built engine for the model state',
    'Five scenarios (tags + regex cache + serialisation, rejected loads, a mid-range discard policy driven by explicit steps of the virtual clock of the hooks, and the secondary entry points tag_exists / restricted checks / class-id lookup / resource reload on an Engine; add_filter + optimize + enable/disable_tags on a Blocker; cosmetic + scriptlet resources with refused and accepted add_resource calls (the model tracks the accepted extras); batch vs incremental construction; first-use orders of regex rules on the virtual clock); every history of depth 5/4/5 (quick) or 6/5/6 (thorough) whose last operation is a query is executed (S1: every operation at depth d-1, the core operations at depth d); environment answers (cleanup timer fired, regex discarded) are operations of the alphabet; failing histories are shrunk before classification.',
    'Hash-map iteration order inside the engine is not controlled; violating histories are re-executed twice and under a never-reuse allocator.', 'DESIGN §4 C06'),
  'C07': ('BX+HX', 'model_checking', 'exhaustive enumeration of rule subsets x tag sets and of tag-operation histories on real engines, compared with a set-algebra model and a tag-stripped reference engine',
-   'All subsets of a 14-rule pool (every category a tag combines with, same-bucket untagged neighbours) x optimise x 8 tag sets; all sequences of <= 3 (quick) / 4 (thorough) of 28 tag/deserialize operations on 4 lists; tag_exists after every step, full battery at the end; 9 tag-name spellings (empty, padded, case twins, inner blank, non-ASCII) on the rule side x the API side x three ways to reach a set x 4 rule categories x optimise; every sequence of <= 4 (thorough 5) of 11 operations (tag switches, add_filter of a tagged rule of each category) on a Blocker, compared with a blocker built in one go.',
+   'All subsets of a 15-rule pool (every category a tag combines with, same-bucket untagged neighbours) x optimise x 8 tag sets; all sequences of <= 3 (quick) / 4 (thorough) of 33 tag/deserialize operations on 4 lists; tag_exists after every step, full battery at the end; 9 tag-name spellings (empty, padded, case twins, inner blank, non-ASCII) on the rule side x the API side x three ways to reach a set x 4 rule categories x optimise; every sequence of <= 4 (thorough 5) of 11 operations (tag switches, add_filter of a tagged rule of each category) on a Blocker, compared with a blocker built in one go.',
    'The tag-stripped reference engine is built by the same crate (differential).', 'DESIGN §4 C07'),
  'C08': ('BX', 'model_checking', T_BX + 'differential between the original engine and the engine reloaded from its serialisation, field by field',
-   'All ordered lists of <= 2 (quick) / <= 3 (thorough) rules of an 87-rule alphabet (every network and cosmetic rule shape, twins) x debug x optimise x list permission (including mixed-permission lists), plus every rule-cube cell alone and with a same-pattern neighbour, serialised and loaded into five kinds of receiver (fresh, tags preset, used engine holding other rules, and two receivers whose tag set differs from the one the producer had at save time), compared on 398 queries (network under every tag subset, CSP, cosmetic, class/id).',
+   'All ordered lists of <= 2 (quick) / <= 3 (thorough) rules of a 101-rule alphabet (every network and cosmetic rule shape, twins) x debug x optimise x list permission (including mixed-permission lists), plus every rule-cube cell alone and with a same-pattern neighbour, serialised and loaded into five kinds of receiver (fresh, tags preset, used engine holding other rules, and two receivers whose tag set differs from the one the producer had at save time), compared on 398 queries (network under every tag subset, CSP, cosmetic, class/id).',
    'The two format defects found by this check (removeparam rules and scriptlet permissions were not serialised) are repaired in /repo (fix: 7c0000a, ade9355); their witnesses are replayed on every run.', 'DESIGN §4 C08'),
  'C09': ('BX', 'model_checking', T_BX + 'byte equality of repeated, cross-thread and cross-process serialisations; reload fixpoint',
-   'Same lists as C08 plus the rule cube, plus ~600 wide lists (>= 4 entries per internal container, repeated rules, shared buckets); every tag set is also reached by enabling one tag at a time and by disabling from the full set; every list is built and serialised 6 (quick) / 12 (thorough) times, once in a fresh thread and (every 16th list / every wide list) in a child process; every buffer is reloaded and re-serialised.',
+   'Same lists as C08 plus the rule cube, plus ~600 wide lists (>= 4 entries per internal container, repeated rules, shared buckets); repeated pattern texts inside one fusion group, a repeated tagged rule; every tag set is also reached by enabling one tag at a time and by disabling from the full set; every list is built and serialised 6 (quick) / 12 (thorough) times, once in a fresh thread and (every 16th list / every wide list) in a child process; every buffer is reloaded and re-serialised.',
    'Inputs exhaustive to the bound; hash seeds of std HashMap are redrawn, not enumerable: exhaustive=false is reported for that dimension.', 'DESIGN §4 C09'),
  'C10': ('FX', 'fault_enumeration', 'exhaustive fault enumeration (every prefix, every single-bit flip, every structural-byte substitution, huge-length splices, header variants) of valid serialized buffers, each loaded in a child process under an allocation and time ceiling',
-   '7 (quick) / 15 (thorough) valid buffers (one of them with one rule per modifier option); every prefix, bit flip, structural substitution, huge length, version byte, string replacement (12 texts and nil), header variant; a successful load is followed by queries, tag switches and queries again; thorough adds substitution pairs and bit-flip pairs; cross-overs between two valid buffers at every pair of structural offsets; post-conditions: no panic or abort, bounded allocation, atomicity on error (battery + serialisation unchanged), usability on success (battery built from the buffer strings, also as hosts with a query string that names all of them, + re-serialisation).',
+   '8 (quick) / 16 (thorough) valid buffers (among them one rule per modifier option, and initiator lists of two and three entries); every prefix, bit flip, structural substitution, huge length, version byte, string replacement (12 texts and nil), header variant; a successful load is followed by queries, tag switches and queries again; thorough adds substitution pairs and bit-flip pairs; cross-overs between two valid buffers at every pair of structural offsets; post-conditions: no panic or abort, bounded allocation, atomicity on error (battery + serialisation unchanged), usability on success (battery built from the buffer strings, also as hosts with a query string that names all of them, and from ten initiators that rules list or that lie below listed domains, + re-serialisation).',
    'Allocations <= 2 KiB are not counted towards the 64 MiB ceiling.', 'DESIGN §4 C10'),
  'C11': ('BX', 'model_checking', T_BX + 'totality (no panic) + differential (list vs list minus rejected lines; hosts line vs ||host^)',
-   'Every string of <= 4 (quick) / 5 (thorough) symbols over a 22-symbol structural alphabet through all parser entry points, the single-edit neighbourhood of 145 real rule spellings, metadata cut-off alignments, line independence on all lists of <= 3/4 good+junk lines, hosts-format equivalence, rule-type options.',
+   'Every string of <= 4 (quick) / 5 (thorough) symbols over a 22-symbol structural alphabet through all parser entry points, the single-edit neighbourhood of 145 real rule spellings, metadata cut-off alignments, line independence on all lists of <= 3/4 good+junk lines, hosts-format equivalence, hosts lines outside the documented format (more than an address and a single hostname) must be refused, blank-but-not-empty lines, rule-type options.',
    'css-validation feature is off, as in the baseline configuration.', 'DESIGN §4 C11'),
  'C12': ('BX', 'model_checking', T_BX + 'totality + comparison with the url crate, idna, and an independent eTLD+1 computation from the same PSL data; differential preparsed vs new',
    'All strings of <= 5 (quick) / 6 (thorough) symbols over an 18-symbol URL alphabet behind 6 prefixes (1.2e7 / 2.2e8) for totality and internal consistency; a structured universe of 32 256 (quick) / 950 400 (thorough) URLs x initiators x types for host, party, scheme, type and preparsed equality; URLs wrapped in every combination of C0-or-space characters (stripped) and of five look-alikes (not stripped); every pair of consecutive requests over 22 related URLs (no history dependence).',
    'Upper-case hosts, control characters in the authority and hosts the url crate canonicalises are Unspecified for host extraction and party.', 'DESIGN §4 C12'),
  'C13': ('BX', 'model_checking', T_BX + 'compared with the redirect selection rule written from the property text (set-valued on ties)',
-   'All ordered lists of <= 3 rules (thorough: all lists of 4) of a 56-rule redirect alphabet (every resource kind, priority spelling, exceptions) x two resource stores x 7 requests (.com, .org and absent initiators); per-rule applicability both from the real matcher and from an independent predicate; every pure-positive / pure-negated list of request-type options next to redirect= and redirect-rule=; a resource store fed colliding names and aliases; priorities at both ends of i32; the same rules handed one by one to an empty blocker.',
+   'All ordered lists of <= 3 rules (thorough: all lists of 4) of a 90-rule redirect alphabet (every resource kind, priority spelling, exceptions) x two resource stores x 7 requests (.com, .org and absent initiators); per-rule applicability both from the real matcher and from an independent predicate; every pure-positive / pure-negated list of request-type options next to redirect= and redirect-rule=; a resource store fed colliding names and aliases, binary content under listed and unlisted kinds and content that is not base64; priorities at both ends of i32; the same rules handed one by one to an empty blocker.',
    'Exception naming the same resource with a different priority suffix, and whether a redirect exception unblocks, are Unspecified.', 'DESIGN §4 C13'),
  'C14': ('BX', 'model_checking', T_BX + 'byte-for-byte comparison with an independent query-string surgery reference',
-   'URL = fixed prefix + every string of length <= 6 (quick) / 8 (thorough) over {?,#,&,=,a,b,e-acute}, and <= 5 / 6 over a second alphabet with upper case and a multi-character key, x every set of <= 2/3 rules of an 11-rule pool x 5 request types x 2 initiators; 6 other spellings of the URL base; every list of request-type options of a 61-list menu before and after removeparam= x 16 request types.',
+   'URL = fixed prefix + every string of length <= 6 (quick) / 8 (thorough) over {?,#,&,=,a,b,e-acute}, and <= 5 / 6 over a second alphabet with upper case and a multi-character key, x every set of <= 2/3 rules of a 12-rule pool (one line with two value-carrying modifiers: two admissible readings) x 5 request types x 2 initiators; 6 other spellings of the URL base; every list of request-type options of a 61-list menu before and after removeparam= x 16 request types.',
    'Per-rule applicability from the real matcher and, independently, from a predicate written from the rule text.', 'DESIGN §4 C14'),
  'C15': ('BX', 'model_checking', T_BX + 'compared with CSP set algebra written from the property text; all list orders enumerated',
-   'All ordered lists of <= 3 (quick) / 5 (thorough) rules of a 42-rule csp alphabet (including lines that carry csp next to another value-carrying modifier: every admissible reading is enumerated), every tag subset, 8 URLs x all 19 request-type strings.',
+   'All ordered lists of <= 3 (quick) / 5 (thorough) rules of a 38-rule csp alphabet (including lines that carry csp next to another value-carrying modifier: every admissible reading is enumerated), every tag subset, 8 URLs x all 19 request-type strings.',
    'Per-rule applicability from the real matcher and, independently, from a predicate written from the rule text.', 'DESIGN §4 C15'),
  'C16': ('BX', 'model_checking', T_BX + 'compared with an independent string-level scoping model (no hashes) using addr::psl directly',
-   'All ordered lists of <= 2 (quick) / connected triples (thorough) of a 514-rule cosmetic alphabet (36 location forms x 10 bodies x ##/#@#) x 16 page hosts x 5 generichide configurations, the ABP markers #?# / #@?#, generichide spellings against page URLs whose text normalisation changes; hide selectors, procedural actions, exceptions, generichide and the injected script (multiset of invocations) compared.',
+   'All ordered lists of <= 2 (quick) / connected triples (thorough) of a 732-rule cosmetic alphabet (48 location forms x 10 bodies x ##/#@#) x 18 page hosts (two whose registrable domain begins with its own public suffix) x 5 generichide configurations, the ABP markers #?# / #@?#, generichide spellings against page URLs whose text normalisation changes; hide selectors, procedural actions, exceptions, generichide and the injected script (multiset of invocations) compared.',
    'Only-negated locations with an action or +js body, and a negated location of one rule against another rule providing the same body, are Unspecified for that body.', 'DESIGN §4 C16'),
  'C17': ('BX', 'model_checking', T_BX + 'compared with an independent CSS-identifier key reference; partition check',
-   'All subsets of <= 3 (quick) / 4 (thorough) of a 66-selector alphabet (prefix/extension names, escapes, hex escapes, non-ASCII), each engine queried with every subset of <= 2 names as classes, as ids and of exceptions; lists in which a rule occurs more than once.',
+   'All subsets of <= 3 (quick) / 4 (thorough) of a 79-selector alphabet (prefix/extension names, escapes, hex escapes incl. the backslash itself, escaped non-ASCII characters, escape + emoji, non-ASCII), each engine queried with every subset of <= 2 names as classes, as ids and of exceptions; lists in which a rule occurs more than once.',
    'Malformed escapes are outside the domain (executed, must not panic).', 'DESIGN §4 C17'),
  'C18': ('BX', 'model_checking', T_BX + 'subset test, graph reachability and an independent +js argument grammar with a strict JSON-literal reader; all injection orders enumerated',
-   'All 256x256 permission pairs directly and through the full engine path; every dependency graph on 3 nodes (110 592 base graphs) x node permissions x injection lists in every order through the public get_scriptlet_resources (hash order enumerated, not drawn); every argument string of <= 3 (quick) / 4 (thorough) symbols over 13 symbols x 8 spellings x 3 positions; all pairs of 20 +js bodies for exceptions; all pairs of spelled arguments (state of the splitter across arguments); a second, rejected offer of a stored resource name.',
+   'All 256x256 permission pairs directly and through the full engine path (lists of several masks also through Engine::new + deserialize of the built engine); every dependency graph on 3 nodes (110 592 base graphs) x node permissions x injection lists in every order through the public get_scriptlet_resources (hash order enumerated, not drawn); every argument string of <= 3 (quick) / 4 (thorough) symbols over 13 symbols x 8 spellings x 3 positions; all pairs of 20 +js bodies for exceptions, over 8 exception locations (two of them double negations, which must change nothing); all pairs of spelled arguments (state of the splitter across arguments); a second, rejected offer of a stored resource name.',
    'Ambiguous +js spellings (unbalanced quotes, text after a closing quote, runs of backslashes before a separator) are Unspecified; the emitted literal must still be well-formed.', 'DESIGN §4 C18'),
  'C19': ('SX+BX', 'model_checking', 'stateless DFS over thread interleavings of the real Sync build with iterative preemption bounding (CHESS-style), blocking decided by the real Mutex::try_lock through a cfg-guarded seam; plus cross-configuration differential',
-   'Thirteen base thread plans (every entry point that takes a shared reference: check, restricted check, csp, cosmetic, class/id, serialize_raw, get_regex_debug_info, tag_exists) and history plans (a single-thread preamble - every tagged regex rule used, tag switches, reloads, a mid-range discard policy with explicit clock steps on the virtual clock of the hooks - before 2x1 / 2x2 / 2x3 thread plans; four cold-cache plans under the default policy in which one request visits several unused regex rules while the other thread uses one of them) (2x2, 3x1, 3x2, 2x3, mixed queries, URL-rewriting rules, blocked+excepted+rewritten requests, pages with opposite generichide verdicts, pages with different CSP answers) of real OS threads on one shared engine, all schedules with <= 2 (quick) / <= 3-4 (thorough) preemptions; every answer compared with the sequential answer; deadlock, panic and poisoning detected; every violating schedule replayed twice. The single-thread build writes answer hashes for 3 722 rule lists x 1 881 requests, the thread-safe build recomputes them.',
-   'No preemption between scheduling points: exhaustive for the events of the seam, sound for the program as long as nothing shared is mutated outside the regex-manager lock. That assumption is only sampled: a free-running stress pass (8 real threads, every answer compared with the sequential one) in both tiers and a Miri pass in the thorough tier; neither is exhaustive and the evidence says so. A thread blocked on a lock outside the seam is reported by a watchdog as a deadlock of that schedule. Weak memory not modelled.', 'DESIGN §4 C19, §5'),
+   'Thirteen base thread plans (every entry point that takes a shared reference: check, restricted check, csp, cosmetic, class/id, serialize_raw, get_regex_debug_info, tag_exists) and history plans (a single-thread preamble - every tagged regex rule used, tag switches, reloads, a mid-range discard policy with explicit clock steps on the virtual clock of the hooks - before 2x1 / 2x2 / 2x3 thread plans; four cold-cache plans under the default policy in which one request visits several unused regex rules while the other thread uses one of them) (2x2, 3x1, 3x2, 2x3, mixed queries, URL-rewriting rules, blocked+excepted+rewritten requests, pages with opposite generichide verdicts, pages with different CSP answers) of real OS threads on one shared engine, all schedules with <= 2 (quick) / <= 3-4 (thorough) preemptions; every answer compared with the sequential answer; deadlock, panic and poisoning detected; every violating schedule replayed twice. The single-thread build writes answer hashes for 3 722 rule lists x 1 881 requests and three special lists whose compiled regexes are between 1 and 10 MiB, the thread-safe build recomputes them.',
+   'No preemption between scheduling points: exhaustive for the events of the seam, sound for the program as long as nothing shared is mutated outside the regex-manager lock. That assumption is only sampled: a free-running stress pass (8 real threads, every answer compared with the sequential one; two phases: default discard policy, and a policy whose cleanup is due at every acquisition) in both tiers and a Miri pass in the thorough tier; neither is exhaustive and the evidence says so. A thread blocked on a lock outside the seam is reported by a watchdog as a deadlock of that schedule. Statements a change adds beside the hooked acquisition branch are not executed under the explorer (only by the stress pass). Weak memory not modelled.', 'DESIGN §4 C19, §5'),
  'C20': ('BX', 'model_checking', T_BX + 'post-conditions on every emitted rule (ASCII, Safari regex-subset recogniser, ordering, filters_used) + inclusion against the real matcher',
    'Every pattern body of <= 6 (quick) / 7 (thorough) symbols x anchor modes x option frames as singleton sets, the single-edit neighbourhood of a 135-rule alphabet, and all ordered lists of <= 2/3 alphabet rules.',
    'Order of filters_used is compared as a multiset (network rules are always reported before cosmetic ones).', 'DESIGN §4 C20'),
